@@ -11,6 +11,21 @@ sys.path.insert(0, ROOT)
 props = [json.loads(l) for l in open(os.path.join(ROOT, "properties.jsonl"))]
 na = json.load(open(os.path.join(ROOT, "contracts", "not_applicable.json")))
 checks, not_app = [], []
+ENGINES = dict(symx=("symx", "vf.vs", "ghostfs"), objx=("objx", "ofield", "anyobj"), jaxsym=("jaxsym",))
+
+
+def engines_of(pid, seen=()):
+    """engines a contract file uses, from its imports (following contracts it re-uses)"""
+    import re
+    src = open(os.path.join(ROOT, "contracts", f"{pid}.py")).read()
+    out = [e for e, pats in ENGINES.items() if any(re.search(rf"(from|import) [\w., ]*{re.escape(p.split('.')[-1])}", src) for p in pats)]
+    for other in re.findall(r"from contracts import (C\d\d)|from contracts\.(C\d\d) import", src):
+        o = other[0] or other[1]
+        if o != pid and o not in seen:
+            out += [e for e in engines_of(o, seen + (pid,)) if e not in out]
+    return out
+
+
 for p in props:
     pid = p["id"]
     fn = os.path.join(ROOT, "contracts", f"{pid}.py")
@@ -23,6 +38,7 @@ for p in props:
             if isinstance(node, ast.Assign) and getattr(node.targets[0], "id", None) == "META":
                 meta = eval(compile(ast.Expression(node.value), fn, "eval"))
     if meta and meta.get("claimed", True):
+        meta.setdefault("engine", "+".join(engines_of(pid)) or "runtime-contracts")
         c = dict(property_id=pid,
                  quick_cmd=f"./check {pid} --tier quick",
                  thorough_cmd=f"./check {pid} --tier thorough",
@@ -46,10 +62,14 @@ man = dict(
     engines=[
         dict(name="symx", path="vf/symx.py", kind_free_text="Engine S: CPython-hosted symbolic execution of the re-compiled real source, "
              "loop cuts with sidecar invariants, VCs discharged by z3 (cvc5 on unknown); abstract theories in vf/vs.py etc.",
-             serves_properties=[c["property_id"] for c in checks if c["engine"] == "symx"]),
+             serves_properties=[c["property_id"] for c in checks if "symx" in c["engine"]]),
         dict(name="objx", path="vf/objx.py", kind_free_text="Engine O/C: the installed NIFTy classes run unmodified on NumPy object arrays of "
              "symbolic elements (sympy or z3); postconditions become identities decided by sympy/z3 for all values",
-             serves_properties=[c["property_id"] for c in checks if c["engine"] == "objx"]),
+             serves_properties=[c["property_id"] for c in checks if "objx" in c["engine"]]),
+        dict(name="jaxsym", path="vf/jaxsym.py", kind_free_text="Engine J: jax.make_jaxpr traces the real nifty.re functions; the jaxpr is evaluated primitive by "
+             "primitive on arrays of sympy expressions (concolic decisions at a shadow point, uninterpreted primitives for abstract callables); "
+             "postconditions become sympy identities",
+             serves_properties=[c["property_id"] for c in checks if "jaxsym" in c["engine"]]),
     ],
     checks=checks,
     notes="Contract-based deductive verification with a self-built VC generator (no Python verifier is installed). See DESIGN.md. "
